@@ -148,6 +148,18 @@ def translate(repo):
         if n not in pseudo_names: raise TranslateError('PseudoFs no longer overrides %s' % n)
     pa = norm(dict((m[0], m) for m in pseudo)['access'][2])
     if pa != '{Ok(())}': raise TranslateError('PseudoFs::access is not Ok(()): %s' % pa)
+    # the async twin: impl AsyncFileSystem for Vfs (feature async-io) re-implements some of the methods
+    asrc = rd('src/api/vfs/async_io.rs')
+    amethods = methods_of(find_block(asrc, r'impl\s+AsyncFileSystem\s+for\s+Vfs\s*\{'))
+    names = [e['name'] for e in t['methods']]
+    t['async_twins'] = []
+    for m in amethods:
+        if not m[0].startswith('async_') or m[0][6:] not in names:
+            raise TranslateError('Vfs implements AsyncFileSystem::%s, which has no FileSystem twin the model knows' % m[0])
+        b = norm(m[2])
+        if 'self.get_real_rootfs(' not in b or ('fs.%s(' % m[0]) not in b:
+            raise TranslateError('Vfs::%s does not route with get_real_rootfs to fs.%s' % (m[0], m[0]))
+        t['async_twins'].append(m[0][6:])
     # server: ctx remap by header nodeid before dispatch
     srv_mod = norm(rd('src/api/server/mod.rs')); srv_sync = norm(rd('src/api/server/sync_io.rs'))
     t['server_remaps_by_nodeid'] = ('letnodeid=ctx.nodeid();self.fs.id_remap_with_nodeid(&mutctx.context,nodeid)' in srv_mod
@@ -186,6 +198,8 @@ def emit_coq(t):
     rows = ['m_%s' % e['name'] for e in t['methods'] if e['vfs'] is None and e['name'] not in NOT_REQUESTS and e['name'] != 'batch_forget']
     o.append('Definition unforwarded : list N := [' + '; '.join(rows) + '].')
     o.append('Definition hand_modelled : list N := [' + '; '.join('m_%s' % e['name'] for e in t['methods'] if e['vfs'] and e['vfs']['cls'] == 'hand') + '].')
+    o.append('(* methods that impl AsyncFileSystem for Vfs re-implements (src/api/vfs/async_io.rs) *)')
+    o.append('Definition async_twins : list N := [' + '; '.join('m_%s' % n for n in t['async_twins']) + '].')
     o.append('Definition n_methods : N := %d.' % len(t['methods']))
     return '\n'.join(o) + '\n'
 
